@@ -255,9 +255,9 @@ class Transfer:
         self.timeouts = 0
 
 
-def _sock(family=socket.AF_INET, timeout=2.0):
+def _sock(family=socket.AF_INET, timeout=2.0, ip=None, port=0):
     s = socket.socket(family, socket.SOCK_DGRAM)
-    s.bind(("::1" if family == socket.AF_INET6 else "127.0.0.1", 0))
+    s.bind((ip or ("::1" if family == socket.AF_INET6 else "127.0.0.1"), port))
     s.settimeout(timeout)
     return s
 
